@@ -17,4 +17,5 @@ def bounded_jobs(tier, seed):
     return [
         bj('rcc.b_C13', 'run_section_merge', tier, seed),
         bj('rcc.b_C13', 'run_property_merge', tier, seed),
+        bj('rcc.b_C13', 'run_merge_history', tier, seed),
     ]
